@@ -50,7 +50,7 @@ live model and does not draw the operation (counted in distribution):
   C13a  deleting a space one of whose *child* spaces is a base of another space
   C13e  deleting a space that has a sub space inside its own tree (KeyError half-way, stale graph)
   D3    remove_bases / del space when a sub space inherits along two routes (IndexError half-way)
-  D22/D21 (values through an attribute path), D23 (rename) are outside the generator's vocabulary: witnesses only.
+  D22/D21 (values through an attribute path; repaired in /repo), D23 (rename) are outside the model-tied generator's vocabulary: witnesses only.
 corpus/C13/input_*.json: input values (outside the model's vocabulary) of deleted cells, (P) only.
 corpus/C13/reinherit_*.json: re-inheritance over spaces without cells / with unchanged members, (T) and (P).
 Operations refused for lack of a C3 order are dropped (counted: no_mro)."""
@@ -72,7 +72,7 @@ ASSUMPTIONS = ["vocabulary: spaces, cells (cached, one parameter, formulas: cons
                "change, clear_all, space-level and attribute-path references): judged by the (P) oracle only (must-die list of "
                "the generator's mirror = a lower bound, reachability audit of the implementation's containers and graphs, "
                "rebuild differential); no Coq model covers it; re-use of the interface object when the same ItemSpace is "
-               "built again (dynamic_cache) is taken as intended; D22 (del Src after S.k was read) and C07-D38 not generated"]
+               "built again (dynamic_cache) is taken as intended; C07-D38 not generated"]
 CORPUS = os.path.join(fw.VERIF, "corpus", "C13")
 
 PROFILES = {
